@@ -445,3 +445,544 @@ End Pkg.
 Lemma wire P pkg : wf P pkg = true -> dumpable pkg = true -> text_ok P pkg = true ->
   (do bytes <- dump P pkg; load P bytes) = Ok pkg.
 Proof. intros W D T. destruct (load_dump P pkg W D T) as (bs & E & L). rewrite E. exact L. Qed.
+Lemma wire_k {B} P pkg (K : pyval -> result B) : wf P pkg = true -> dumpable pkg = true -> text_ok P pkg = true ->
+  (do bytes <- dump P pkg; do pkg' <- load P bytes; K pkg') = K pkg.
+Proof. intros W D T. destruct (load_dump P pkg W D T) as (bs & E & L). rewrite E. cbn [bind]. now rewrite L. Qed.
+
+(* ---- two parties ---- *)
+Lemma set_ltab_id s : set_ltab s (ltab s) = s.
+Proof. now destruct s. Qed.
+Lemma put2_get from w : put2 from (get w from) (get w (negb from)) = w.
+Proof. destruct w, from; reflexivity. Qed.
+Lemma get_put2_same from s r : get (put2 from s r) from = s.
+Proof. now destruct from. Qed.
+Lemma get_put2_other from s r : get (put2 from s r) (negb from) = r.
+Proof. now destruct from. Qed.
+
+Lemma proxy_serial_name n : proxy_serial (POther (proxy_name n)) = Some n.
+Proof.
+  unfold proxy_serial, proxy_name. replace (2 * n + 1)%N with (1 + 2 * n)%N by lia.
+  rewrite N.odd_add_mul_2. simpl. f_equal.
+  replace (1 + 2 * n)%N with (1 + n * 2)%N by lia. rewrite N.div_add by lia. reflexivity.
+Qed.
+Lemma own_proxy_name mk n : own_proxy mk (POther (proxy_name n)) = nth_error mk (N.to_nat n).
+Proof. unfold own_proxy. now rewrite proxy_serial_name. Qed.
+
+Section WorldP.
+Variable P : bparams.
+Variable idp : pyval -> idpack.
+Hypothesis idp_wf : forall u, wf P (pv_of_idpack (idp u)) = true.
+Hypothesis idp_ns : forall u, text_ok P (pv_of_idpack (idp u)) = true.
+Notation transfers := (transfer P std_bladder std_uladder idp).
+
+Definition keys_ok (mk : list idpack) : Prop :=
+  forall k, In k mk -> wf P (pv_of_idpack k) = true /\ text_ok P (pv_of_idpack k) = true.
+
+Theorem transfer_spec from v w :
+  wf P v = true -> text_ok P v = true -> keys_ok (made (get w from)) ->
+  echo_ok (made (get w from)) (ltab (get w (negb from))) v = true ->
+  transfers from v w =
+    Ok (fst (recv idp (made (get w from)) v (get w (negb from))),
+        put2 from (set_ltab (get w from) (register idp (regs_of (made (get w from)) v) (ltab (get w from))))
+                  (snd (recv idp (made (get w from)) v (get w (negb from))))).
+Proof.
+  intros W T K E. unfold transfer. rewrite box_spec. cbn [bind].
+  rewrite wire_k; [|apply pkg_wf; auto; apply K|apply pkg_dumpable|apply pkg_text_ok; auto; apply K].
+  erewrite unbox_box; [|apply box_spec|exact E|reflexivity|].
+  - cbn [bind]. destruct (recv _ _ _ _). reflexivity.
+  - intros u Hu. cbn [ltab set_ltab]. now apply has_register.
+Qed.
+
+(* 1. plain immutable values arrive as themselves and nothing else changes *)
+Theorem values_by_copy from v w : dumpable v = true -> wf P v = true -> text_ok P v = true ->
+  transfers from v w = Ok (v, w).
+Proof.
+  intros D W T. unfold transfer. rewrite box_value by exact D. cbn [bind register fold_left].
+  rewrite set_ltab_id. rewrite wire_k; [|now rewrite wf_pair|unfold pair; simpl; now rewrite D|unfold text_ok in *; now rewrite nosurr_pair].
+  rewrite unbox_value. cbn [bind]. now rewrite put2_get.
+Qed.
+
+(* ---- the invariant of every world reachable by well-behaved parties ---- *)
+(* T k: the owner's table has key k *)
+Definition cache_ok (T : idpack -> bool) (r : side) : Prop :=
+  forall k n rc, lookup k (cache r) = Some (n, rc) -> nth_error (made r) (N.to_nat n) = Some k /\ T k = true.
+Definition side_ok (T : idpack -> bool) (r : side) : Prop := cache_ok T r /\ keys_ok (made r).
+
+Lemma nth_error_nlen {A} (l : list A) x : nth_error (l ++ [x]) (N.to_nat (nlen l)) = Some x.
+Proof. unfold nlen. rewrite Nat2N.id, nth_error_app2, Nat.sub_diag by lia. reflexivity. Qed.
+Lemma nth_error_app_some {A} (l : list A) x n y : nth_error l n = Some y -> nth_error (l ++ [x]) n = Some y.
+Proof. intros H. rewrite nth_error_app1; auto. apply nth_error_Some. congruence. Qed.
+
+Lemma accept_ok T k r : side_ok T r -> T k = true ->
+  wf P (pv_of_idpack k) = true -> text_ok P (pv_of_idpack k) = true -> side_ok T (snd (accept k r)).
+Proof.
+  intros [C K] Tk Wk Nk. unfold accept. destruct (lookup k (cache r)) as [[n rc]|] eqn:E; cbn [snd]; split; unfold cache_ok; cbn [cache made set_cache]; auto.
+  - intros k' n' rc' H. destruct (idpack_eq_dec k' k) as [->|N].
+    + rewrite lookup_update_same in H. injection H as <- <-. split; auto. exact (proj1 (C _ _ _ E)).
+    + rewrite lookup_update_other in H by exact N. exact (C _ _ _ H).
+  - intros k' n' rc' H. destruct (idpack_eq_dec k' k) as [->|N].
+    + rewrite lookup_update_same in H. injection H as <- <-. split; auto. apply nth_error_nlen.
+    + rewrite lookup_update_other in H by exact N. destruct (C _ _ _ H) as [A B]. split; auto. now apply nth_error_app_some.
+  - intros k' H. apply in_app_or in H as [H|[<-|[]]]; auto.
+Qed.
+
+Lemma recv_ok T mk : forall v r, side_ok T r -> (forall u, In u (regs_of mk v) -> T (idp u) = true) ->
+  side_ok T (snd (recv idp mk v r)).
+Proof.
+  induction v using pyval_ind'; intros r S F; try (rewrite recv_value by reflexivity; exact S).
+  - destruct (dumpable (PTuple l)) eqn:D; [rewrite recv_value by exact D; exact S|].
+    rewrite recv_tuple by exact D. destruct (recv_items idp mk l r) as [vs r'] eqn:E. cbn [snd].
+    assert (F' : forall u, In u (flat_map (regs_of mk) l) -> T (idp u) = true).
+    { intros u Hu. apply F. simpl. simpl in D. now rewrite D. }
+    clear D F. revert r vs r' S E F'. induction H as [|y ys Hy Hys IH]; intros r vs r' S E F; simpl in E.
+    + now injection E as _ <-.
+    + destruct (recv idp mk y r) as [y' r1] eqn:E1. destruct (recv_items idp mk ys r1) as [ys' r2] eqn:E2.
+      injection E as _ <-. eapply IH; [|exact E2|].
+      * specialize (Hy r S). rewrite E1 in Hy. apply Hy. intros u Hu. apply F. simpl. apply in_or_app. now left.
+      * intros u Hu. apply F. simpl. apply in_or_app. now right.
+  - destruct (dumpable (PFset l)) eqn:D; [rewrite recv_value by exact D; exact S|].
+    rewrite recv_reg by auto. apply accept_ok; auto. apply F. simpl in *. rewrite D. now left.
+  - destruct (dumpable (PSlice v1 v2 v3)) eqn:D; [rewrite recv_value by exact D; exact S|].
+    rewrite recv_reg by auto. apply accept_ok; auto. apply F. simpl in *. rewrite D. now left.
+  - destruct (own_proxy mk (POther k)) eqn:O.
+    + rewrite (recv_own _ _ _ _ _ O). exact S.
+    + rewrite recv_reg by auto. apply accept_ok; auto. apply F. simpl. rewrite O. now left.
+Qed.
+
+Definition inv1 (s t : side) : Prop :=
+  side_ok (fun k => has k (ltab t)) s /\ keyed idp (ltab t).
+Definition inv (w : world) : Prop := inv1 (wa w) (wb w) /\ inv1 (wb w) (wa w).
+Lemma inv_get w a : inv w -> inv1 (get w a) (get w (negb a)) /\ inv1 (get w (negb a)) (get w a).
+Proof. intros [A B]. destruct a; split; assumption. Qed.
+Lemma inv_put2 a s r : inv1 s r -> inv1 r s -> inv (put2 a s r).
+Proof. intros A B. destruct a; split; assumption. Qed.
+Lemma inv0 : inv world0.
+Proof.
+  assert (H : inv1 side0 side0).
+  { split; [split|]; [intros k n rc H; discriminate|intros k []|intros k o c H; discriminate]. }
+  split; exact H.
+Qed.
+
+(* the application only hands over proxies it still holds *)
+Fixpoint held (s : side) (v : pyval) : bool :=
+  if dumpable v then true else
+  match v with
+  | PTuple l => forallb (held s) l
+  | _ => match proxy_serial v with
+         | Some n => match nth_error (made s) (N.to_nat n) with
+                     | Some k => match lookup k (cache s) with Some (n', _) => (n' =? n)%N | None => false end
+                     | None => true      (* not a proxy of this connection: an ordinary object *)
+                     end
+         | None => true
+         end
+  end.
+Lemma held_echo_ok s t : inv1 s t -> forall v, held s v = true -> echo_ok (made s) (ltab t) v = true.
+Proof.
+  intros [[C _] _]. induction v using pyval_ind'; intros Hh; try reflexivity.
+  - simpl in *. destruct (forallb dumpable l); auto.
+    induction H as [|y ys Hy Hys IH]; simpl in *; auto. apply andb_true_iff in Hh as [A B]. now rewrite Hy, IH.
+  - simpl in *. now destruct (forallb dumpable l).
+  - simpl in *. now destruct (dumpable v1 && dumpable v2 && dumpable v3).
+  - cbn [held echo_ok dumpable] in *. unfold own_proxy. destruct (proxy_serial (POther k)) as [n|]; auto.
+    destruct (nth_error (made s) (N.to_nat n)) as [key|]; auto.
+    destruct (lookup key (cache s)) as [[n' rc]|] eqn:E; [|discriminate]. exact (proj2 (C _ _ _ E)).
+Qed.
+
+Theorem transfer_inv from v w : inv w -> wf P v = true -> text_ok P v = true -> held (get w from) v = true ->
+  exists v' w', transfers from v w = Ok (v', w') /\ inv w'.
+Proof.
+  intros I W T Hh. destruct (inv_get w from I) as [[[C K] Ky] [[C' K'] Ky']].
+  rewrite transfer_spec; auto; [|now apply (held_echo_ok _ _ (conj (conj C K) Ky))].
+  eexists _, _. split; [reflexivity|]. apply inv_put2.
+  - split; [split|]; cbn [cache made ltab set_ltab]; auto.
+    + intros k n rc H. rewrite recv_ltab. exact (C _ _ _ H).
+    + rewrite recv_ltab. exact Ky.
+  - split.
+    + apply recv_ok; [|intros u Hu; cbn [ltab set_ltab]; now apply has_register].
+      split; auto. intros k n rc H. destruct (C' _ _ _ H) as [A B]. split; auto.
+      cbn [ltab set_ltab]. now apply has_register_mono.
+    + cbn [ltab set_ltab]. now apply keyed_register.
+Qed.
+
+(* ---- 2. every other object arrives as a reference to it ---- *)
+Definition byref (mk : list idpack) (v : pyval) : Prop :=
+  dumpable v = false /\ is_tuple v = false /\ own_proxy mk v = None.
+
+Lemma echo_ok_reg mk lt v : dumpable v = false -> is_tuple v = false -> own_proxy mk v = None -> echo_ok mk lt v = true.
+Proof. intros D T O. destruct v; try discriminate; simpl in *; try rewrite D; try reflexivity. now rewrite O. Qed.
+Lemma regs_of_reg mk v : dumpable v = false -> is_tuple v = false -> own_proxy mk v = None -> regs_of mk v = [v].
+Proof. intros D T O. destruct v; try discriminate; simpl in *; try rewrite D; try reflexivity. now rewrite O. Qed.
+Lemma regs_of_own mk v k : own_proxy mk v = Some k -> regs_of mk v = [].
+Proof. intros O. pose proof (own_proxy_shape _ _ _ O) as [D T]. destruct v; try discriminate. simpl. now rewrite O. Qed.
+Lemma regs_of_value mk v : dumpable v = true -> regs_of mk v = [].
+Proof. intros D. destruct v; simpl in *; try rewrite D; try reflexivity; discriminate. Qed.
+Lemma echo_ok_value mk lt v : dumpable v = true -> echo_ok mk lt v = true.
+Proof. intros D. destruct v; simpl in *; try rewrite D; try reflexivity; discriminate. Qed.
+Lemma echo_ok_own mk lt v k : own_proxy mk v = Some k -> echo_ok mk lt v = has k lt.
+Proof. intros O. pose proof (own_proxy_shape _ _ _ O) as [D T]. destruct v; try discriminate. simpl. now rewrite O. Qed.
+
+Lemma inv_keys w a : inv w -> keys_ok (made (get w a)).
+Proof. intros I. destruct (inv_get w a I) as [[[_ K] _] _]. exact K. Qed.
+
+Theorem refs_by_reference from v w :
+  inv w -> byref (made (get w from)) v -> wf P v = true -> text_ok P v = true ->
+  transfers from v w =
+    Ok (fst (accept (idp v) (get w (negb from))),
+        put2 from (set_ltab (get w from) (coll_add (idp v) v (ltab (get w from))))
+                  (snd (accept (idp v) (get w (negb from))))).
+Proof.
+  intros I (D & T & O) W X. rewrite transfer_spec; auto; [|now apply inv_keys|now apply echo_ok_reg].
+  rewrite recv_reg, regs_of_reg by auto. reflexivity.
+Qed.
+
+Lemma accept_alive k n rc r : lookup k (cache r) = Some (n, rc) ->
+  accept k r = (POther (proxy_name n), set_cache r (update k (n, rc + 1) (cache r))).
+Proof. intros H. unfold accept. now rewrite H. Qed.
+Lemma accept_fresh k r : lookup k (cache r) = None ->
+  accept k r = (POther (proxy_name (nlen (made r))),
+                {| ltab := ltab r; made := made r ++ [k]; cache := update k (nlen (made r), 1) (cache r); mlog := mlog r |}).
+Proof. intros H. unfold accept. now rewrite H. Qed.
+
+(* ---- 4. a reference handed back to its owner is the original object, and nothing changes ---- *)
+Lemma text_ok_other k : text_ok P (POther k) = true.
+Proof. unfold text_ok. simpl. apply orb_true_r. Qed.
+
+Theorem echo_identity a n k rc obj c w :
+  inv w -> lookup k (cache (get w a)) = Some (n, rc) -> lookup k (ltab (get w (negb a))) = Some (obj, c) ->
+  transfers a (POther (proxy_name n)) w = Ok (obj, w).
+Proof.
+  intros I C L. destruct (inv_get w a I) as [[[Cs K] Ky] _]. destruct (Cs _ _ _ C) as [Hn Hh].
+  assert (O : own_proxy (made (get w a)) (POther (proxy_name n)) = Some k) by now rewrite own_proxy_name.
+  rewrite transfer_spec; auto; [|apply text_ok_other|rewrite (echo_ok_own _ _ _ _ O); unfold has; now rewrite L].
+  rewrite (recv_own _ _ _ _ _ O), (regs_of_own _ _ _ O), L. cbn [fst snd register fold_left].
+  now rewrite set_ltab_id, put2_get.
+Qed.
+
+(* a request through the n-th proxy carrying a plain argument x: the owner's _unbox yields the object itself *)
+Lemma request_via_proxy a n k rc obj c x w :
+  inv w -> lookup k (cache (get w a)) = Some (n, rc) -> lookup k (ltab (get w (negb a))) = Some (obj, c) ->
+  dumpable x = true -> wf P x = true -> text_ok P x = true ->
+  transfers a (PTuple [POther (proxy_name n); x]) w = Ok (PTuple [obj; x], w).
+Proof.
+  intros I C L D W X. destruct (inv_get w a I) as [[[Cs K] Ky] _]. destruct (Cs _ _ _ C) as [Hn Hh].
+  assert (O : own_proxy (made (get w a)) (POther (proxy_name n)) = Some k) by now rewrite own_proxy_name.
+  assert (DT : dumpable (PTuple [POther (proxy_name n); x]) = false) by reflexivity.
+  rewrite transfer_spec; auto.
+  - rewrite recv_tuple by exact DT. cbn [recv_items]. rewrite (recv_own _ _ _ _ _ O), L, recv_value by exact D.
+    cbn [fst snd]. replace (regs_of _ (PTuple [POther (proxy_name n); x])) with (@nil pyval).
+    + cbn [register fold_left]. now rewrite set_ltab_id, put2_get.
+    + cbn [regs_of dumpable forallb andb flat_map]. rewrite O, regs_of_value by exact D. reflexivity.
+  - cbn [wf forallb]. now rewrite W.
+  - unfold text_ok in *. cbn [nosurr forallb]. destruct (sp P); auto. simpl in *. now rewrite X.
+  - rewrite echo_ok_tuple by exact DT. cbn [forallb]. rewrite (echo_ok_own _ _ _ _ O), echo_ok_value by exact D.
+    unfold has. now rewrite L.
+Qed.
+
+(* ---- 3. an operation applied through a proxy is applied to the owner's object ---- *)
+Theorem mutation_at_owner a n k rc obj c d w :
+  inv w -> lookup k (cache (get w a)) = Some (n, rc) -> lookup k (ltab (get w (negb a))) = Some (obj, c) ->
+  wf P (PInt d) = true ->
+  mutate P std_bladder std_uladder idp a n d w =
+    Ok (put2 a (get w a) (set_mlog (get w (negb a)) (mlog (get w (negb a)) ++ [(obj, d)]))).
+Proof.
+  intros I C L W. unfold mutate. rewrite (request_via_proxy a n k rc obj c (PInt d) w I C L); auto.
+  unfold text_ok. simpl. apply orb_true_r.
+Qed.
+
+(* ---- dropping a proxy ---- *)
+Theorem drop_spec a n k rc obj c w :
+  inv w -> lookup k (cache (get w a)) = Some (n, rc) -> lookup k (ltab (get w (negb a))) = Some (obj, c) ->
+  wf P (PInt rc) = true ->
+  drop P std_bladder std_uladder idp a n w =
+    Ok (put2 a (set_cache (get w a) (remove k (cache (get w a))))
+               (set_ltab (get w (negb a))
+                  (if c <? rc then remove k (ltab (get w (negb a))) else update k (obj, c - rc) (ltab (get w (negb a)))))).
+Proof.
+  intros I C L W. destruct (inv_get w a I) as [[[Cs K] Ky] _]. destruct (Cs _ _ _ C) as [Hn Hh].
+  unfold drop. rewrite Hn, C, N.eqb_refl.
+  rewrite (request_via_proxy a n k rc obj c (PInt rc) w I C L); auto; [|unfold text_ok; simpl; apply orb_true_r].
+  cbn [bind]. rewrite (Ky _ _ _ L). unfold coll_decref. rewrite L. reflexivity.
+Qed.
+
+Theorem drop_inv a n w : inv w ->
+  (forall k rc, lookup k (cache (get w a)) = Some (n, rc) -> wf P (PInt rc) = true) ->
+  exists w', drop P std_bladder std_uladder idp a n w = Ok w' /\ inv w'.
+Proof.
+  intros I Wc. destruct (inv_get w a I) as [[[Cs K] Ky] [[Co Ko] Kyo]].
+  destruct (nth_error (made (get w a)) (N.to_nat n)) as [k|] eqn:Hn; [|exists w; unfold drop; now rewrite Hn].
+  destruct (lookup k (cache (get w a))) as [[n' rc]|] eqn:C; [|exists w; unfold drop; now rewrite Hn, C].
+  destruct (N.eqb_spec n' n) as [->|Ne]; [|exists w; unfold drop; rewrite Hn, C; apply N.eqb_neq in Ne; now rewrite Ne].
+  destruct (Cs _ _ _ C) as [_ Hh]. unfold has in Hh. destruct (lookup k (ltab (get w (negb a)))) as [[obj c]|] eqn:L; [|discriminate].
+  rewrite (drop_spec a n k rc obj c w I C L (Wc _ _ C)). eexists; split; [reflexivity|]. apply inv_put2.
+  - split; [split|]; unfold cache_ok, keyed; cbn [cache made ltab set_ltab set_cache]; auto.
+    + intros k' n2 rc2 H. destruct (idpack_eq_dec k' k) as [->|N]; [now rewrite lookup_remove_same in H|].
+      rewrite lookup_remove_other in H by exact N. destruct (Cs _ _ _ H) as [A B]. split; auto.
+      unfold has in *. destruct (c <? rc); [now rewrite lookup_remove_other|now rewrite lookup_update_other].
+    + intros k' o' c' H. destruct (c <? rc).
+      * destruct (idpack_eq_dec k' k) as [->|N]; [now rewrite lookup_remove_same in H|].
+        rewrite lookup_remove_other in H by exact N. exact (Ky _ _ _ H).
+      * destruct (idpack_eq_dec k' k) as [->|N].
+        -- rewrite lookup_update_same in H. injection H as <- _. exact (Ky _ _ _ L).
+        -- rewrite lookup_update_other in H by exact N. exact (Ky _ _ _ H).
+  - split; [split|]; unfold cache_ok, keyed; cbn [cache made ltab set_ltab set_cache]; auto.
+Qed.
+
+(* ---- 5. one proxy per remote object while it is alive ---- *)
+Lemma proxy_name_inj m n : POther (proxy_name m) = POther (proxy_name n) -> m = n.
+Proof. unfold proxy_name. intros [= H]. lia. Qed.
+
+Lemma accept_cache k r : exists n rc, fst (accept k r) = POther (proxy_name n) /\
+  lookup k (cache (snd (accept k r))) = Some (n, rc) /\ ltab (snd (accept k r)) = ltab r.
+Proof.
+  unfold accept. destruct (lookup k (cache r)) as [[n rc]|]; eexists _, _; cbn [fst snd cache set_cache ltab];
+    (split; [reflexivity|split; [apply lookup_update_same|reflexivity]]).
+Qed.
+
+Lemma held_byref s v : byref (made s) v -> held s v = true.
+Proof.
+  intros (D & T & O). destruct v; try discriminate; try (simpl in *; rewrite D; reflexivity).
+  cbn [held dumpable]. unfold own_proxy in O. destruct (proxy_serial (POther k)); auto. now rewrite O.
+Qed.
+
+Theorem one_proxy_alive from v w n rc :
+  inv w -> byref (made (get w from)) v -> wf P v = true -> text_ok P v = true ->
+  lookup (idp v) (cache (get w (negb from))) = Some (n, rc) ->
+  exists w', transfers from v w = Ok (POther (proxy_name n), w') /\
+    lookup (idp v) (cache (get w' (negb from))) = Some (n, rc + 1) /\
+    made (get w' (negb from)) = made (get w (negb from)).
+Proof.
+  intros I B W X C. rewrite refs_by_reference by auto. rewrite (accept_alive _ _ _ _ C). cbn [fst snd].
+  eexists; split; [reflexivity|]. rewrite get_put2_other. cbn [cache set_cache made]. split; auto. apply lookup_update_same.
+Qed.
+
+Theorem one_proxy_fresh from v w :
+  inv w -> byref (made (get w from)) v -> wf P v = true -> text_ok P v = true ->
+  lookup (idp v) (cache (get w (negb from))) = None ->
+  let n := nlen (made (get w (negb from))) in
+  exists w', transfers from v w = Ok (POther (proxy_name n), w') /\
+    lookup (idp v) (cache (get w' (negb from))) = Some (n, 1) /\
+    (forall m, nth_error (made (get w (negb from))) (N.to_nat m) <> None -> POther (proxy_name m) <> POther (proxy_name n)).
+Proof.
+  intros I B W X C n. rewrite refs_by_reference by auto. rewrite (accept_fresh _ _ C). cbn [fst snd].
+  eexists; split; [reflexivity|]. rewrite get_put2_other. cbn [cache]. split; [apply lookup_update_same|].
+  intros m Hm E. apply proxy_name_inj in E. subst m. apply Hm. apply nth_error_None. unfold n, nlen. rewrite Nat2N.id. lia.
+Qed.
+
+Theorem dropped_proxy_forgotten a n k rc obj c w w' :
+  inv w -> lookup k (cache (get w a)) = Some (n, rc) -> lookup k (ltab (get w (negb a))) = Some (obj, c) ->
+  wf P (PInt rc) = true -> drop P std_bladder std_uladder idp a n w = Ok w' ->
+  lookup k (cache (get w' a)) = None /\ made (get w' a) = made (get w a).
+Proof.
+  intros I C L W D. rewrite (drop_spec a n k rc obj c w I C L W) in D. injection D as <-.
+  rewrite get_put2_same. cbn [cache set_cache made]. split; auto. apply lookup_remove_same.
+Qed.
+
+(* ---- 4'. there and back again, any number of times ---- *)
+Definition linked (from : bool) (p : N) (v : pyval) (w : world) : Prop :=
+  inv w /\ byref (made (get w from)) v /\
+  (exists rc, lookup (idp v) (cache (get w (negb from))) = Some (p, rc)) /\
+  (exists c, lookup (idp v) (ltab (get w from)) = Some (v, c)).
+
+Lemma linked_back from p v w : linked from p v w -> transfers (negb from) (POther (proxy_name p)) w = Ok (v, w).
+Proof.
+  intros (I & B & (rc & C) & (c & L)). apply (echo_identity (negb from) p (idp v) rc v c w I C).
+  now rewrite negb_involutive.
+Qed.
+
+Lemma linked_forth from p v w : linked from p v w -> wf P v = true -> text_ok P v = true ->
+  exists w', transfers from v w = Ok (POther (proxy_name p), w') /\ linked from p v w'.
+Proof.
+  intros (I & B & (rc & C) & (c & L)) W X.
+  pose proof (held_byref _ _ B) as Hh.
+  destruct (transfer_inv from v w I W X Hh) as (v' & w' & E & I').
+  rewrite refs_by_reference in E by auto. rewrite (accept_alive _ _ _ _ C) in E. cbn [fst snd] in E.
+  injection E as <- <-. eexists; split; [rewrite refs_by_reference by auto; rewrite (accept_alive _ _ _ _ C); reflexivity|].
+  split; [exact I'|]. rewrite get_put2_same, get_put2_other. cbn [made set_ltab ltab cache set_cache]. split; [exact B|]. split.
+  - eexists. apply lookup_update_same.
+  - rewrite lookup_coll_add_same, L. eauto.
+Qed.
+
+Fixpoint hops (n : nat) (from : bool) (x : pyval) (w : world) : result (pyval * world) :=
+  match n with
+  | O => Ok (x, w)
+  | S n' => do (y, w') <- transfers from x w; hops n' (negb from) y w'
+  end.
+
+Theorem echo_hops from p v : wf P v = true -> text_ok P v = true ->
+  forall n w, linked from p v w ->
+  exists w', hops (2 * n) from v w = Ok (v, w') /\ linked from p v w' /\
+             exists w'', hops (2 * n + 1) from v w = Ok (POther (proxy_name p), w'').
+Proof.
+  intros W X. induction n as [|n IH]; intros w Lk.
+  - exists w. split; [reflexivity|]. split; [exact Lk|]. destruct (linked_forth _ _ _ _ Lk W X) as (w1 & E & _).
+    exists w1. simpl. now rewrite E.
+  - destruct (linked_forth _ _ _ _ Lk W X) as (w1 & E & L1).
+    pose proof (linked_back _ _ _ _ L1) as E2. destruct (IH w1 L1) as (w' & H1 & H2 & (w'' & H3)).
+    exists w'. replace (2 * S n)%nat with (S (S (2 * n))) by lia. cbn [hops]. rewrite E. cbn [bind]. rewrite E2. cbn [bind].
+    rewrite negb_involutive. split; [exact H1|]. split; [exact H2|]. exists w''.
+    replace (S (S (2 * n)) + 1)%nat with (S (S (2 * n + 1))) by lia. cbn [hops]. rewrite E. cbn [bind]. rewrite E2. cbn [bind].
+    now rewrite negb_involutive.
+Qed.
+
+Theorem first_send_links from v w :
+  inv w -> byref (made (get w from)) v -> wf P v = true -> text_ok P v = true ->
+  (forall o c, lookup (idp v) (ltab (get w from)) = Some (o, c) -> o = v) ->
+  exists p w1, transfers from v w = Ok (POther (proxy_name p), w1) /\ linked from p v w1.
+Proof.
+  intros I B W X NC.
+  pose proof (held_byref _ _ B) as Hh.
+  destruct (transfer_inv from v w I W X Hh) as (v' & w' & E & I').
+  rewrite refs_by_reference in E by auto. rewrite refs_by_reference by auto.
+  destruct (accept_cache (idp v) (get w (negb from))) as (n & rc & A1 & A2 & A3).
+  injection E as <- <-. rewrite A1. exists n. eexists. split; [reflexivity|]. split; [exact I'|].
+  rewrite get_put2_same, get_put2_other. cbn [made set_ltab ltab]. split; [exact B|]. split; [eauto|].
+  rewrite lookup_coll_add_same. destruct (lookup (idp v) (ltab (get w from))) as [[o c]|] eqn:L; [|eauto].
+  rewrite (NC _ _ eq_refl). eauto.
+Qed.
+
+(* ---- 2'. exact tuples: the rule is applied element by element, at every nesting ---- *)
+Fixpoint transfer_items (from : bool) (l : list pyval) (w : world) : result (list pyval * world) :=
+  match l with
+  | [] => Ok ([], w)
+  | y :: ys => do (y', w1) <- transfers from y w; do (ys', w2) <- transfer_items from ys w1; Ok (y' :: ys', w2)
+  end.
+
+Lemma forallb_same {A} (f g : A -> bool) l : (forall x, f x = g x) -> forallb f l = forallb g l.
+Proof. intros H. induction l as [|y ys IH]; simpl; auto. now rewrite H, IH. Qed.
+Lemma held_ext s s' : made s = made s' -> cache s = cache s' -> forall v, held s v = held s' v.
+Proof.
+  intros M C. induction v using pyval_ind'; try reflexivity.
+  - simpl. destruct (forallb dumpable l); auto. induction H as [|y ys Hy Hys IH]; simpl; auto. now rewrite Hy, IH.
+  - cbn [held]. now rewrite M, C.
+Qed.
+Lemma held_value s v : dumpable v = true -> held s v = true.
+Proof. intros D. destruct v; simpl in *; try rewrite D; try reflexivity; discriminate. Qed.
+Lemma held_items s l : held s (PTuple l) = true -> forallb (held s) l = true.
+Proof.
+  simpl. destruct (forallb dumpable l) eqn:D; auto. intros _.
+  induction l as [|y ys IH]; simpl in *; auto. apply andb_true_iff in D as [A B]. now rewrite held_value, IH.
+Qed.
+Lemma recv_items_values mk l r : forallb dumpable l = true -> recv_items idp mk l r = (l, r).
+Proof.
+  induction l as [|y ys IH]; simpl; auto. intros D. apply andb_true_iff in D as [A B].
+  now rewrite recv_value, IH.
+Qed.
+Lemma regs_items_values mk l : forallb dumpable l = true -> flat_map (regs_of mk) l = [].
+Proof.
+  induction l as [|y ys IH]; simpl; auto. intros D. apply andb_true_iff in D as [A B].
+  now rewrite regs_of_value, IH.
+Qed.
+Lemma recv_tuple_all mk l r :
+  recv idp mk (PTuple l) r = let (vs, r') := recv_items idp mk l r in (PTuple vs, r').
+Proof.
+  destruct (dumpable (PTuple l)) eqn:D; [|now apply recv_tuple].
+  rewrite recv_value by exact D. simpl in D. now rewrite recv_items_values.
+Qed.
+Lemma regs_tuple_all mk l : regs_of mk (PTuple l) = flat_map (regs_of mk) l.
+Proof.
+  destruct (dumpable (PTuple l)) eqn:D; [|simpl in *; now rewrite D].
+  rewrite regs_of_value by exact D. simpl in D. now rewrite regs_items_values.
+Qed.
+
+Lemma transfer_items_spec from : forall l w, inv w ->
+  forallb (wf P) l = true -> forallb (text_ok P) l = true -> forallb (held (get w from)) l = true ->
+  transfer_items from l w =
+    Ok (fst (recv_items idp (made (get w from)) l (get w (negb from))),
+        put2 from (set_ltab (get w from) (register idp (flat_map (regs_of (made (get w from))) l) (ltab (get w from))))
+                  (snd (recv_items idp (made (get w from)) l (get w (negb from))))).
+Proof.
+  induction l as [|y ys IH]; intros w I W X Hh.
+  - simpl. now rewrite set_ltab_id, put2_get.
+  - simpl in W, X, Hh. apply andb_true_iff in W as [W1 W2]. apply andb_true_iff in X as [X1 X2].
+    apply andb_true_iff in Hh as [H1 H2]. cbn [transfer_items].
+    destruct (transfer_inv from y w I W1 X1 H1) as (y' & w1 & E & I1). rewrite E. cbn [bind].
+    destruct (inv_get w from I) as [Is _].
+    rewrite transfer_spec in E; auto; [|now apply inv_keys|now apply (held_echo_ok _ _ Is)].
+    injection E as <- <-. rewrite IH; auto.
+    + rewrite get_put2_same, get_put2_other. cbn [made set_ltab ltab bind recv_items flat_map].
+      destruct (recv idp (made (get w from)) y (get w (negb from))) as [y' r1]. cbn [fst snd].
+      destruct (recv_items idp (made (get w from)) ys r1) as [ys' r2]. cbn [fst snd].
+      rewrite register_app. reflexivity.
+    + rewrite get_put2_same. rewrite <- H2. apply forallb_same. intros v. apply held_ext; reflexivity.
+Qed.
+
+Theorem tuple_elementwise from l w :
+  inv w -> wf P (PTuple l) = true -> text_ok P (PTuple l) = true -> held (get w from) (PTuple l) = true ->
+  transfers from (PTuple l) w = do (vs, w') <- transfer_items from l w; Ok (PTuple vs, w').
+Proof.
+  intros I W X Hh. destruct (inv_get w from I) as [Is _].
+  rewrite transfer_spec; auto; [|now apply inv_keys|now apply (held_echo_ok _ _ Is)].
+  rewrite transfer_items_spec; auto.
+  - cbn [bind]. rewrite recv_tuple_all, regs_tuple_all. destruct (recv_items _ _ _ _). reflexivity.
+  - cbn [wf] in W. now apply andb_true_iff in W as [_ W].
+  - now apply text_ok_list.
+  - now apply held_items.
+Qed.
+
+(* ---- 6. explicit copy transfer; pickle is an oracle ---- *)
+Section PickleP.
+Variable pk_dumps : pyval -> list byte.
+Variable pk_loads : list byte -> pyval.
+
+Theorem obtain_spec a n k rc obj c proto w :
+  inv w -> lookup k (cache (get w a)) = Some (n, rc) -> lookup k (ltab (get w (negb a))) = Some (obj, c) ->
+  wf P (PInt proto) = true -> wf P (PBytes (pk_dumps obj)) = true ->
+  obtain P std_bladder std_uladder idp pk_dumps pk_loads a n proto w = Ok (pk_loads (pk_dumps obj), w).
+Proof.
+  intros I C L W Wb. unfold obtain.
+  rewrite (request_via_proxy a n k rc obj c (PInt proto) w I C L); auto; [|unfold text_ok; simpl; apply orb_true_r].
+  cbn [bind]. rewrite values_by_copy; auto. unfold text_ok. simpl. apply orb_true_r.
+Qed.
+
+Theorem deliver_spec a v w :
+  inv w -> wf P (PBytes (pk_dumps v)) = true ->
+  let cp := pk_loads (pk_dumps v) in
+  byref (made (get w (negb a))) cp -> wf P cp = true -> text_ok P cp = true ->
+  deliver P std_bladder std_uladder idp pk_dumps pk_loads a v w =
+    Ok (fst (accept (idp cp) (get w a)),
+        put2 (negb a) (set_ltab (get w (negb a)) (coll_add (idp cp) cp (ltab (get w (negb a)))))
+                      (snd (accept (idp cp) (get w a)))).
+Proof.
+  intros I Wb cp B W X. unfold deliver. rewrite values_by_copy; auto; [|unfold text_ok; simpl; apply orb_true_r].
+  cbn [bind]. fold cp. rewrite refs_by_reference; auto. now rewrite negb_involutive.
+Qed.
+End PickleP.
+
+(* ---- every history of well-behaved parties: no step raises and the invariant holds throughout ---- *)
+Definition valid_op (w : world) (o : op) : Prop :=
+  match o with
+  | Send a v => wf P v = true /\ text_ok P v = true /\ held (get w a) v = true
+  | Drop a n => forall k rc, lookup k (cache (get w a)) = Some (n, rc) -> wf P (PInt rc) = true
+  | Mutate a n d => wf P (PInt d) = true /\ exists k rc, lookup k (cache (get w a)) = Some (n, rc)
+  | Raw _ _ _ => False
+  end.
+Notation steps := (step P std_bladder std_uladder idp).
+
+Theorem step_inv o w : inv w -> valid_op w o -> exists v w', steps o w = Ok (v, w') /\ inv w'.
+Proof.
+  intros I V. destruct o as [a v|a n|a n d|a f pkg]; cbn [valid_op step] in *.
+  - destruct V as (W & X & Hh). exact (transfer_inv a v w I W X Hh).
+  - destruct (drop_inv a n w I V) as (w' & E & I'). rewrite E. cbn [bind]. eauto.
+  - destruct V as (W & k & rc & C). destruct (inv_get w a I) as [[[Cs K] Ky] Io]. destruct (Cs _ _ _ C) as [_ Hh].
+    unfold has in Hh. destruct (lookup k (ltab (get w (negb a)))) as [[obj c]|] eqn:L; [|discriminate].
+    rewrite (mutation_at_owner a n k rc obj c d w I C L W). cbn [bind]. eexists _, _. split; [reflexivity|].
+    apply inv_put2; [split; [split|]; auto|].
+    destruct Io as [[Co Ko] Kyo]. split; [split|]; auto.
+  - contradiction.
+Qed.
+
+Inductive good : world -> list op -> Prop :=
+| good_nil w : good w []
+| good_cons w o ops : valid_op w o -> (forall v w', steps o w = Ok (v, w') -> good w' ops) -> good w (o :: ops).
+
+Definition is_ok {A} (r : result A) : Prop := match r with Ok _ => True | _ => False end.
+Theorem run_inv : forall ops w, inv w -> good w ops ->
+  Forall is_ok (fst (run P std_bladder std_uladder idp ops w)) /\ inv (snd (run P std_bladder std_uladder idp ops w)).
+Proof.
+  induction ops as [|o ops IH]; intros w I G; simpl.
+  - split; auto.
+  - inversion G as [|? ? ? V Hn]; subst. destruct (step_inv o w I V) as (v & w' & E & I').
+    rewrite E. destruct (IH w' I' (Hn _ _ E)) as [A B].
+    destruct (run P std_bladder std_uladder idp ops w') as [vs w2]. simpl in *. split; auto. constructor; simpl; auto.
+Qed.
+End WorldP.
